@@ -17,24 +17,36 @@ import (
 // C11: store size accounting is exact; limits enforced consistently.
 
 func init() {
-	pairs := model.Pairs()
 	fw.Register(&fw.Spec{
 		ID:    "C11",
 		Level: "exploration",
 		Rule: "case = one (policy,value type) pair x one PRNG history of 12..30 steps over a real FullKV, each step one of: execute a block of host-call ops; merge a partial store (built on a fresh PartialKV, saved and reloaded) into it; " +
 			"undo the most recent block with ApplyDeltasReverse (then optionally re-execute it and undo it again); save/load cycle. After every step SizeBytes() must equal sum(len(key)+len(value)) over Iter(), and after an undo the content must equal the content before the undone block. " +
 			"Limit clause (hook VerifSetLimits): every block is also flushed on a twin store with a small total limit; Flush must fail with 'became too big' iff the true size computed from the twin's real content exceeds the limit after some create/update of that block. " +
+			"pipeline part (the last cases; quick 200, thorough 20 000): fork histories through the real forkable and the real pipeline fork handler (the C03 scenario: blocks several deep undone, re-applied on a flip back and undone again), SizeBytes() == content total after every new / undo step, and no spurious 'became too big' failure. " +
 			"non-trivial = history containing at least one merge into existing keys or an undo of a block with a delete or a size-changing update; distinct by hash of the history",
 		Assumptions: []string{"exact numeric operands (see C02)", "the size a store reports is SizeBytes(); the real content is what Iter() yields"},
 		Cases: func(tier, mode string) int {
-			if tier == "thorough" {
-				return len(pairs) * 4000
-			}
-			return len(pairs) * 100
+			return c11StoreCases(tier) + c11ForkCases(tier)
 		},
+		CaseTimeout: 180e9,
 		MinNontrivial: 100,
 		Run:           runC11,
 	})
+}
+
+func c11StoreCases(tier string) int {
+	if tier == "thorough" {
+		return len(model.Pairs()) * 4000
+	}
+	return len(model.Pairs()) * 100
+}
+
+func c11ForkCases(tier string) int {
+	if tier == "thorough" {
+		return 20000
+	}
+	return 200
 }
 
 type blockRec struct {
@@ -44,6 +56,11 @@ type blockRec struct {
 }
 
 func runC11(c *fw.Case) {
+	if c.Index >= c11StoreCases(c.Tier) {
+		c.Count("pipeline_fork_histories", 1)
+		runForkHistory(c, "C11")
+		return
+	}
 	pairs := model.Pairs()
 	p := pairs[c.Index%len(pairs)]
 	g := gen.NewStoreOps(c.R, p)
